@@ -2,8 +2,7 @@
   C02 — the tokenizer reads back what the serializer writes, part C: element
   content (`bodyOK`) as a whole.
 -/
-import Genshi.Lemmas.XmlTokB
-import Genshi.Model.XmlSpec
+import Genshi.Lemmas.XmlTokE
 namespace Genshi.Xml
 open Genshi Genshi.Escape Genshi.Xml.Reader
 
@@ -141,7 +140,7 @@ structure BodyRes (st : SerSt) (fs : List FEv) (out : Str) : Prop where
   ser : serRun st fs = some out
   nocr : '\r' ∉ out
   head : startsWithText fs = false → out = [] ∨ ∃ r, out = '<' :: r
-  tok : ∀ f, out.length < f → tokGo f out = some (fs.map normF)
+  tok : ∀ f, out.length < f → tokGo f out = some (tokOf fs)
 
 theorem nm_app {a b : Str} (ha : '\r' ∉ a) (hb : '\r' ∉ b) : '\r' ∉ a ++ b := by
   simp only [List.mem_append, not_or]; exact ⟨ha, hb⟩
@@ -170,11 +169,13 @@ theorem cr_not_mem_emitAttrs (a : List (Str × Str)) (h : flatAttrsOK a = true) 
     exact nm_app (nm_app (nm_cons (by decide) hn) (nm_cons (by decide) (nm_cons (by decide) hv)))
       (nm_cons (by decide) this)
 
-/-- one piece of markup in front of an already handled tail -/
-theorem body_glue (st st' : SerSt) (pre es : List FEv) (m : Str) (out' : Str)
+/-- one piece of markup in front of an already handled tail; `mid` is what the
+    tokenizer sees between the markup and the tail (the line break after a DOCTYPE) -/
+theorem body_glue (st st' : SerSt) (pre es : List FEv) (m : Str) (out' : Str) (toks : List FEv)
     (ih : BodyRes st' es out')
     (hser : serRun st (pre ++ es) = (serRun st' es).map (('<' :: m) ++ ·))
-    (htake : takeMarkup (m ++ out') = some (pre.map normF, out'))
+    (htake : takeMarkup (m ++ out') = some (toks, out'))
+    (htoks : tokOf (pre ++ es) = toks ++ tokOf es)
     (hcr : '\r' ∉ m) :
     BodyRes st (pre ++ es) ('<' :: (m ++ out')) := by
   refine ⟨by rw [hser, ih.ser]; simp, ?_, fun _ => Or.inr ⟨_, rfl⟩, ?_⟩
@@ -182,7 +183,7 @@ theorem body_glue (st st' : SerSt) (pre es : List FEv) (m : Str) (out' : Str)
     exact ⟨by decide, hcr, ih.nocr⟩
   · intro f hf
     obtain ⟨g, rfl⟩ : ∃ g, f = g + 1 := ⟨f - 1, by simp at hf; omega⟩
-    rw [tokGo_markup g m out' _ htake, ih.tok g (by simp at hf; omega)]
+    rw [tokGo_markup g m out' _ htake, ih.tok g (by simp at hf; omega), htoks]
     simp
 
 theorem serRun_cons (st : SerSt) (e : FEv) (es : List FEv) :
@@ -190,101 +191,207 @@ theorem serRun_cons (st : SerSt) (e : FEv) (es : List FEv) :
       | none => none
       | some (st', out) => (serRun st' es).map (out ++ ·) := rfl
 
-theorem tokGo_body (fs : List FEv) (h : bodyOK fs = true) :
-    ∀ (st : SerSt), st.inCdata = false → ∃ out, BodyRes st fs out := by
-  fun_induction bodyOK fs
+theorem sysidOK_parts {sy : Str} (h : sysidOK sy = true) :
+    sy ≠ [] ∧ okStr sy = true ∧ ¬ ('"' ∈ sy ∧ '\'' ∈ sy) := by
+  unfold sysidOK at h
+  simp only [Bool.and_eq_true, Bool.not_eq_true', Bool.and_eq_false_iff] at h
+  refine ⟨by intro e; simp [e] at h, h.1.2, ?_⟩
+  intro ⟨h1, h2⟩
+  rcases h.2 with h3 | h3 <;> simp_all
+
+/-- the DOCTYPE branch of the serializer, and its reading -/
+theorem doctype_piece (n : Str) (p s : Option Str) (h : doctypeOK n p s = true) :
+    ∃ m, emitDoctype n p s = some ('<' :: (m ++ ['\n'])) ∧ '\r' ∉ m ∧ (∃ r, m = '!' :: r) ∧
+      ∀ rest, takeMarkup (m ++ rest) = some ([FEv.other (.doctype n p s)], rest) := by
+  unfold doctypeOK at h
+  simp only [Bool.and_eq_true] at h
+  obtain ⟨⟨hn, hq⟩, hps⟩ := h
+  have hne : n.isEmpty = false := by
+    obtain ⟨c, cs, rfl, _⟩ := validName_head hn; rfl
+  have hncr := cr_not_mem_of_validName hn
+  cases p with
+  | none =>
+    cases s with
+    | none =>
+      refine ⟨'!' :: 'D' :: 'O' :: 'C' :: 'T' :: 'Y' :: 'P' :: 'E' :: ' ' :: (n ++ ['>']), ?_, ?_, ⟨_, rfl⟩, ?_⟩
+      · simp [emitDoctype, hne, truthy]
+      · exact nm_cons (by decide) (nm_cons (by decide) (nm_cons (by decide) (nm_cons (by decide) (nm_cons (by decide)
+          (nm_cons (by decide) (nm_cons (by decide) (nm_cons (by decide) (nm_cons (by decide) (nm_app hncr (by decide))))))))))
+      · intro rest
+        have := takeDoctype_plain n rest hn hq
+        simp only [takeMarkup, List.cons_append, List.append_assoc, List.nil_append]
+        rw [this]; rfl
+    | some sy =>
+      obtain ⟨s1, s2, s3⟩ := sysidOK_parts hps
+      have hse : sy.isEmpty = false := by simpa using s1
+      by_cases hdq : '"' ∈ sy
+      · have hsq : '\'' ∉ sy := fun e => s3 ⟨hdq, e⟩
+        refine ⟨'!' :: 'D' :: 'O' :: 'C' :: 'T' :: 'Y' :: 'P' :: 'E' :: ' ' ::
+          (n ++ [' ', 'S', 'Y', 'S', 'T', 'E', 'M', ' ', '\''] ++ sy ++ ['\'', '>']), ?_, ?_, ⟨_, rfl⟩, ?_⟩
+        · have : List.elem '"' sy = true := by simpa using hdq
+          simp [emitDoctype, hne, truthy, hse, hdq]
+        · exact nm_cons (by decide) (nm_cons (by decide) (nm_cons (by decide) (nm_cons (by decide) (nm_cons (by decide)
+            (nm_cons (by decide) (nm_cons (by decide) (nm_cons (by decide) (nm_cons (by decide)
+              (nm_app (nm_app (nm_app hncr (by decide)) (okStr_parts s2).2) (by decide))))))))))
+        · intro rest
+          have := takeDoctype_system n sy rest '\'' (Or.inr rfl) hsq hn hq
+          simp only [takeMarkup, List.cons_append, List.append_assoc, List.nil_append]
+          simp only [List.cons_append, List.append_assoc, List.nil_append] at this
+          rw [this]; rfl
+      · refine ⟨'!' :: 'D' :: 'O' :: 'C' :: 'T' :: 'Y' :: 'P' :: 'E' :: ' ' ::
+          (n ++ [' ', 'S', 'Y', 'S', 'T', 'E', 'M', ' ', '"'] ++ sy ++ ['"', '>']), ?_, ?_, ⟨_, rfl⟩, ?_⟩
+        · have : List.elem '"' sy = false := by simpa using hdq
+          simp [emitDoctype, hne, truthy, hse, hdq]
+        · exact nm_cons (by decide) (nm_cons (by decide) (nm_cons (by decide) (nm_cons (by decide) (nm_cons (by decide)
+            (nm_cons (by decide) (nm_cons (by decide) (nm_cons (by decide) (nm_cons (by decide)
+              (nm_app (nm_app (nm_app hncr (by decide)) (okStr_parts s2).2) (by decide))))))))))
+        · intro rest
+          have := takeDoctype_system n sy rest '"' (Or.inl rfl) hdq hn hq
+          simp only [takeMarkup, List.cons_append, List.append_assoc, List.nil_append]
+          simp only [List.cons_append, List.append_assoc, List.nil_append] at this
+          rw [this]; rfl
+  | some pu =>
+    cases s with
+    | none => simp at hps
+    | some sy =>
+      simp only [Bool.and_eq_true, Bool.not_eq_true', decide_eq_true_eq] at hps
+      obtain ⟨⟨⟨⟨p1, p2⟩, p3⟩, p4⟩, p5⟩ := hps
+      obtain ⟨s1, s2, s3⟩ := sysidOK_parts p5
+      have hse : sy.isEmpty = false := by simpa using s1
+      have hpcr : '\r' ∉ pu := by simpa using p4
+      by_cases hdq : '"' ∈ sy
+      · have hsq : '\'' ∉ sy := fun e => s3 ⟨hdq, e⟩
+        refine ⟨'!' :: 'D' :: 'O' :: 'C' :: 'T' :: 'Y' :: 'P' :: 'E' :: ' ' ::
+          (n ++ [' ', 'P', 'U', 'B', 'L', 'I', 'C', ' ', '"'] ++ pu ++ ['"', ' ', '\''] ++ sy ++ ['\'', '>']), ?_, ?_, ⟨_, rfl⟩, ?_⟩
+        · have : List.elem '"' sy = true := by simpa using hdq
+          simp [emitDoctype, hne, truthy, hse, p1, hdq]
+        · exact nm_cons (by decide) (nm_cons (by decide) (nm_cons (by decide) (nm_cons (by decide) (nm_cons (by decide)
+            (nm_cons (by decide) (nm_cons (by decide) (nm_cons (by decide) (nm_cons (by decide)
+              (nm_app (nm_app (nm_app (nm_app (nm_app hncr (by decide)) hpcr) (by decide)) (okStr_parts s2).2) (by decide))))))))))
+        · intro rest
+          have := takeDoctype_public n pu sy rest '\'' (Or.inr rfl) hsq hn hq p2 p3
+          simp only [takeMarkup, List.cons_append, List.append_assoc, List.nil_append]
+          simp only [List.cons_append, List.append_assoc, List.nil_append] at this
+          rw [this]; rfl
+      · refine ⟨'!' :: 'D' :: 'O' :: 'C' :: 'T' :: 'Y' :: 'P' :: 'E' :: ' ' ::
+          (n ++ [' ', 'P', 'U', 'B', 'L', 'I', 'C', ' ', '"'] ++ pu ++ ['"', ' ', '"'] ++ sy ++ ['"', '>']), ?_, ?_, ⟨_, rfl⟩, ?_⟩
+        · have : List.elem '"' sy = false := by simpa using hdq
+          simp [emitDoctype, hne, truthy, hse, p1, hdq]
+        · exact nm_cons (by decide) (nm_cons (by decide) (nm_cons (by decide) (nm_cons (by decide) (nm_cons (by decide)
+            (nm_cons (by decide) (nm_cons (by decide) (nm_cons (by decide) (nm_cons (by decide)
+              (nm_app (nm_app (nm_app (nm_app (nm_app hncr (by decide)) hpcr) (by decide)) (okStr_parts s2).2) (by decide))))))))))
+        · intro rest
+          have := takeDoctype_public n pu sy rest '"' (Or.inl rfl) hdq hn hq p2 p3
+          simp only [takeMarkup, List.cons_append, List.append_assoc, List.nil_append]
+          simp only [List.cons_append, List.append_assoc, List.nil_append] at this
+          rw [this]; rfl
+
+/-- a line break in front of markup (or the end) is a text token of its own -/
+theorem ws_res (st : SerSt) (es : List FEv) (out' : Str) (r : BodyRes st es out')
+    (hnt : startsWithText es = false) :
+    '\r' ∉ '\n' :: out' ∧ ∀ f, ('\n' :: out').length < f → tokGo f ('\n' :: out') = some (wsTok :: tokOf es) := by
+  refine ⟨nm_cons (by decide) r.nocr, ?_⟩
+  intro f hf
+  obtain ⟨g, rfl⟩ : ∃ g, f = g + 1 := ⟨f - 1, by simp at hf; omega⟩
+  have := tokGo_text g ['\n'] ['\n'] out' (by simp) (by decide) (by decide) (by decide) (r.head hnt)
+  simp only [List.cons_append, List.nil_append] at this
+  rw [this, r.tok g (by simp at hf; omega)]
+  rfl
+
+
+theorem tokGo_content (dt : Bool) (fs : List FEv) (h : contentOK dt fs = true) :
+    ∀ (st : SerSt), st.inCdata = false → (dt = true → st.haveDoctype = false) → ∃ out, BodyRes st fs out := by
+  fun_induction contentOK dt fs
   · -- []
-    intro st _
+    intro st _ _
     exact ⟨[], rfl, by simp, fun _ => Or.inl rfl, fun f _ => by cases f <;> rfl⟩
   · -- start
-    rename_i n a es ih
-    intro st hst
+    rename_i dt n a es ih
+    intro st hst hdt
     simp only [Bool.and_eq_true] at h
-    obtain ⟨out', r⟩ := ih h.2 st hst
-    refine ⟨_, body_glue st st [FEv.start n a] es (n ++ emitAttrs a ++ ['>']) out' r ?_ ?_ ?_⟩
+    obtain ⟨out', r⟩ := ih h.2 st hst hdt
+    refine ⟨_, body_glue st st [FEv.start n a] es (n ++ emitAttrs a ++ ['>']) out' (List.map normF [FEv.start n a]) r ?_ ?_ (by simp [tokOf, normF]) ?_⟩
     · simp [serRun_cons, serStep, emitStart]
     · have := takeMarkup_start n _ _ false out' h.1.1 (forall₂_encAttr a h.1.2)
       simpa [emitAttrs_eq, normF] using this
     · exact nm_app (nm_app (cr_not_mem_of_validName h.1.1) (cr_not_mem_emitAttrs a h.1.2)) (by decide)
   · -- empty
-    rename_i n a es ih
-    intro st hst
+    rename_i dt n a es ih
+    intro st hst hdt
     simp only [Bool.and_eq_true] at h
-    obtain ⟨out', r⟩ := ih h.2 st hst
-    refine ⟨_, body_glue st st [FEv.empty n a] es (n ++ emitAttrs a ++ ['/', '>']) out' r ?_ ?_ ?_⟩
+    obtain ⟨out', r⟩ := ih h.2 st hst hdt
+    refine ⟨_, body_glue st st [FEv.empty n a] es (n ++ emitAttrs a ++ ['/', '>']) out' (List.map normF [FEv.empty n a]) r ?_ ?_ (by simp [tokOf, normF]) ?_⟩
     · simp [serRun_cons, serStep, emitStart]
     · have := takeMarkup_start n _ _ true out' h.1.1 (forall₂_encAttr a h.1.2)
       simpa [emitAttrs_eq, normF] using this
     · exact nm_app (nm_app (cr_not_mem_of_validName h.1.1) (cr_not_mem_emitAttrs a h.1.2)) (by decide)
   · -- end
-    rename_i n es ih
-    intro st hst
+    rename_i dt n es ih
+    intro st hst hdt
     simp only [Bool.and_eq_true] at h
-    obtain ⟨out', r⟩ := ih h.2 st hst
-    refine ⟨_, body_glue st st [FEv.end_ n] es ('/' :: n ++ ['>']) out' r ?_ ?_ ?_⟩
+    obtain ⟨out', r⟩ := ih h.2 st hst hdt
+    refine ⟨_, body_glue st st [FEv.end_ n] es ('/' :: n ++ ['>']) out' (List.map normF [FEv.end_ n]) r ?_ ?_ (by simp [tokOf, normF]) ?_⟩
     · simp [serRun_cons, serStep, emitEnd]
     · have := takeMarkup_end n out' h.1
       simpa [normF] using this
     · exact nm_app (nm_cons (by decide) (cr_not_mem_of_validName h.1)) (by decide)
   · -- text
-    rename_i s safe es ih
-    intro st hst
+    rename_i dt s safe es ih
+    intro st hst hdt
     simp only [Bool.and_eq_true, Bool.not_eq_true'] at h
     obtain ⟨⟨⟨⟨hsafe, hne⟩, hok⟩, hnt⟩, hes⟩ := h
     subst hsafe
-    obtain ⟨out', r⟩ := ih hes st hst
+    obtain ⟨out', r⟩ := ih hes st hst hdt
     have hs : s ≠ [] := by intro e; simp [e] at hne
     obtain ⟨c1, c2, _, c4, c5⟩ := escapePy_chars false s
     refine ⟨escapePy false s ++ out', ?_, ?_, fun hh => by simp [startsWithText] at hh, ?_⟩
     · simp [serRun_cons, serStep, hst, r.ser]
-    · simp only [List.mem_append, not_or]
-      exact ⟨c4 (okStr_parts hok).2, r.nocr⟩
+    · exact nm_app (c4 (okStr_parts hok).2) r.nocr
     · intro f hf
       obtain ⟨g, rfl⟩ : ∃ g, f = g + 1 := ⟨f - 1, by simp at hf; omega⟩
       have hpos := List.length_pos_of_ne_nil (c5 hs)
       rw [tokGo_text g _ s out' (c5 hs) c1 c2 (decodeText_escape s hok) (r.head hnt),
         r.tok g (by simp at hf; omega)]
-      simp [normF]
+      simp [normF, tokOf]
   · -- comment
-    rename_i s es ih
-    intro st hst
+    rename_i dt s es ih
+    intro st hst hdt
     simp only [Bool.and_eq_true] at h
-    obtain ⟨out', r⟩ := ih h.2 st hst
+    obtain ⟨out', r⟩ := ih h.2 st hst hdt
     have hc := h.1
     unfold commentOK at hc
     simp only [Bool.and_eq_true, Bool.not_eq_true'] at hc
-    refine ⟨_, body_glue st st [FEv.other (.comment s)] es ('!' :: '-' :: '-' :: (s ++ ['-', '-', '>'])) out' r ?_ ?_ ?_⟩
+    refine ⟨_, body_glue st st [FEv.other (.comment s)] es ('!' :: '-' :: '-' :: (s ++ ['-', '-', '>'])) out' (List.map normF [FEv.other (.comment s)]) r ?_ ?_ (by simp [tokOf, normF]) ?_⟩
     · simp [serRun_cons, serStep]
     · have := takeMarkup_comment s out' (okStr_parts hc.1).1 hc.2
       simpa [normF] using this
     · exact nm_cons (by decide) (nm_cons (by decide) (nm_cons (by decide) (nm_app (okStr_parts hc.1).2 (by decide))))
   · -- pi
-    rename_i t d es ih
-    intro st hst
+    rename_i dt t d es ih
+    intro st hst hdt
     simp only [Bool.and_eq_true] at h
-    obtain ⟨out', r⟩ := ih h.2 st hst
+    obtain ⟨out', r⟩ := ih h.2 st hst hdt
     have hp := h.1
     unfold piOK at hp
     simp only [Bool.and_eq_true, Bool.not_eq_true', decide_eq_true_eq] at hp
     obtain ⟨⟨⟨⟨⟨p1, p2⟩, p3⟩, p4⟩, p5⟩, p6⟩ := hp
-    refine ⟨_, body_glue st st [FEv.other (.pi t d)] es ('?' :: (t ++ ' ' :: d ++ ['?', '>'])) out' r ?_ ?_ ?_⟩
+    refine ⟨_, body_glue st st [FEv.other (.pi t d)] es ('?' :: (t ++ ' ' :: d ++ ['?', '>'])) out' (List.map normF [FEv.other (.pi t d)]) r ?_ ?_ (by simp [tokOf, normF]) ?_⟩
     · simp [serRun_cons, serStep]
     · have := takeMarkup_pi t d out' p1 (by simpa using p2) p3 (okStr_parts p4).1 p5 p6
       simpa [normF] using this
     · exact nm_cons (by decide) (nm_app (nm_app (cr_not_mem_of_validName p1) (nm_cons (by decide) (okStr_parts p4).2))
         (by decide))
   · -- CDATA with text
-    rename_i s safe es ih
-    intro st hst
+    rename_i dt s safe es ih
+    intro st hst hdt
     simp only [Bool.and_eq_true, Bool.not_eq_true'] at h
     obtain ⟨⟨⟨hsafe, hne⟩, hcd⟩, hes⟩ := h
     subst hsafe
-    obtain ⟨out', r⟩ := ih hes st hst
+    obtain ⟨out', r⟩ := ih hes st hst hdt
     unfold cdataOK at hcd
     simp only [Bool.and_eq_true, Bool.not_eq_true'] at hcd
     have hst' : ({ st with inCdata := false } : SerSt) = st := by cases st; simp_all
-    refine ⟨_, body_glue st st [FEv.other .startCdata, FEv.other (.text s false), FEv.other .endCdata] es
-      ('!' :: '[' :: 'C' :: 'D' :: 'A' :: 'T' :: 'A' :: '[' :: (s ++ [']', ']', '>'])) out' r ?_ ?_ ?_⟩
+    refine ⟨_, body_glue st st [FEv.other .startCdata, FEv.other (.text s false), FEv.other .endCdata] es ('!' :: '[' :: 'C' :: 'D' :: 'A' :: 'T' :: 'A' :: '[' :: (s ++ [']', ']', '>'])) out' (List.map normF [FEv.other .startCdata, FEv.other (.text s false), FEv.other .endCdata]) r ?_ ?_ (by simp [tokOf, normF]) ?_⟩
     · simp only [List.cons_append, List.nil_append, serRun_cons, serStep, hst, Bool.false_eq_true, false_or,
         if_true]
       simp [hst', r.ser]
@@ -294,19 +401,34 @@ theorem tokGo_body (fs : List FEv) (h : bodyOK fs = true) :
     · exact nm_cons (by decide) (nm_cons (by decide) (nm_cons (by decide) (nm_cons (by decide) (nm_cons (by decide)
         (nm_cons (by decide) (nm_cons (by decide) (nm_cons (by decide) (nm_app (okStr_parts hcd.1).2 (by decide)))))))))
   · -- empty CDATA
-    rename_i es ih
-    intro st hst
-    obtain ⟨out', r⟩ := ih h st hst
+    rename_i dt es ih
+    intro st hst hdt
+    obtain ⟨out', r⟩ := ih h st hst hdt
     have hst' : ({ st with inCdata := false } : SerSt) = st := by cases st; simp_all
-    refine ⟨_, body_glue st st [FEv.other .startCdata, FEv.other .endCdata] es
-      ('!' :: '[' :: 'C' :: 'D' :: 'A' :: 'T' :: 'A' :: '[' :: ([] ++ [']', ']', '>'])) out' r ?_ ?_ ?_⟩
+    refine ⟨_, body_glue st st [FEv.other .startCdata, FEv.other .endCdata] es ('!' :: '[' :: 'C' :: 'D' :: 'A' :: 'T' :: 'A' :: '[' :: ([] ++ [']', ']', '>'])) out' (List.map normF [FEv.other .startCdata, FEv.other .endCdata]) r ?_ ?_ (by simp [tokOf, normF]) ?_⟩
     · simp only [List.cons_append, List.nil_append, serRun_cons, serStep, hst]
       simp [hst', r.ser]
     · have := takeMarkup_cdata [] out' (by simp) (by decide)
       simpa [normF] using this
     · simp only [List.mem_cons, List.mem_append, not_or]
       decide
-  · -- anything else is outside `bodyOK`
+  · -- DOCTYPE
+    rename_i n p s es ih
+    intro st hst hdt
+    simp only [Bool.and_eq_true, Bool.not_eq_true'] at h
+    obtain ⟨⟨hd, hnt⟩, hes⟩ := h
+    have hhd := hdt rfl
+    obtain ⟨out', r⟩ := ih hes { st with haveDoctype := true } hst (fun e => by cases e)
+    obtain ⟨m, hm1, hm2, _, hm3⟩ := doctype_piece n p s hd
+    obtain ⟨w1, w2⟩ := ws_res _ es out' r hnt
+    refine ⟨'<' :: (m ++ '\n' :: out'), ?_, ?_, fun _ => Or.inr ⟨_, rfl⟩, ?_⟩
+    · simp [serRun_cons, serStep, hhd, hm1, r.ser]
+    · exact nm_cons (by decide) (nm_app hm2 w1)
+    · intro f hf
+      obtain ⟨g, rfl⟩ : ∃ g, f = g + 1 := ⟨f - 1, by simp at hf; omega⟩
+      rw [tokGo_markup g m ('\n' :: out') _ (hm3 _), w2 g (by simp at hf ⊢; omega)]
+      rfl
+  · -- anything else is outside `contentOK`
     cases h
 
 end Genshi.Xml
